@@ -1,8 +1,11 @@
 import RecipeGrid.Model.Fs
 /-! C16b — the resolution of local links on an abstract file system (`Model/Fs.lean`): what `Path.resolve()` returns,
-    and that the decision taken on it never serves bytes from outside the source root -- as long as the resolution
-    meets no symbolic-link loop. With a loop the real code (CPython 3.12 `realpath` + `abspath`) falls back to a
-    lexically normalised, unresolved path, and the containment statements are FALSE: see `…_Full_false` below. -/
+    and that the decision taken on it (`decideLinkP`: one `resolve()` and the refusal of a result that still has a
+    symbolic link on it, commit f55deed) never serves bytes from outside the source root: `asset_is_inside_root`,
+    `no_outside_bytes`, without any hypothesis about loops. With a loop CPython 3.12's `realpath` + `abspath` fall
+    back to a lexically normalised, unresolved path; the decisions without the check -- a single `resolve()`
+    (`decideLinkP1`) and `resolve().resolve()` (`decideLinkP2`, commit 5662881) -- serve a file from outside the root:
+    `single_resolve_leaks`, `double_resolve_leaks`, `single_resolve_not_contained`, `double_resolve_not_contained`. -/
 namespace RG.C16
 open RG
 
@@ -336,6 +339,136 @@ theorem sibling_prefix_not_inside (parent : Path) (name suffix : Str) (rest : Pa
       exact List.eq_nil_of_length_eq_zero (by omega)
     exact absurd this h
 
+/-! ## the check that a path is physical -/
+
+theorem clean_plain {fs : Fs} {q : Path} (h : Clean fs q) : ∀ c ∈ q, Plain c := by
+  intro c hc
+  obtain ⟨pre, post, rfl⟩ := List.append_of_mem hc
+  exact (h pre c ⟨post, by simp⟩).1
+
+theorem noLinkPrefix_sound (fs : Fs) : ∀ (s acc : Path), noLinkPrefix fs acc s = true →
+    ∀ pre c, pre ++ [c] <+: s → fs.linkAt (acc ++ pre ++ [c]) = none := by
+  intro s
+  induction s with
+  | nil => intro acc _ pre c h; have := List.prefix_nil.mp h; simp at this
+  | cons d s ih =>
+    intro acc h pre c hp
+    simp only [noLinkPrefix, Bool.and_eq_true, Option.isNone_iff_eq_none] at h
+    cases pre with
+    | nil =>
+      have : c = d := by simpa using hp
+      subst this
+      simpa using h.1
+    | cons e pre =>
+      obtain ⟨he, hp'⟩ := List.cons_prefix_cons.mp (by simpa using hp)
+      subst he
+      have := ih (acc ++ [e]) h.2 pre c hp'
+      simpa using this
+
+theorem noLinkPrefix_complete (fs : Fs) : ∀ (s acc : Path),
+    (∀ pre c, pre ++ [c] <+: s → fs.linkAt (acc ++ pre ++ [c]) = none) → noLinkPrefix fs acc s = true := by
+  intro s
+  induction s with
+  | nil => intro acc _; rfl
+  | cons d s ih =>
+    intro acc h
+    simp only [noLinkPrefix, Bool.and_eq_true, Option.isNone_iff_eq_none]
+    refine ⟨by simpa using h [] d (by simp), ih (acc ++ [d]) ?_⟩
+    intro pre c hp
+    have hp' : (d :: pre) ++ [c] <+: d :: s := (List.cons_prefix_cons (a := d) (b := d)).mpr ⟨rfl, hp⟩
+    have := h (d :: pre) c hp'
+    simpa using this
+
+/-- a path made of proper names is physical iff it is `Clean` -/
+theorem clean_of_physical (fs : Fs) (q : Path) (hp : ∀ c ∈ q, Plain c) (h : fs.isPhysical q = true) : Clean fs q := by
+  intro pre c hpre
+  refine ⟨hp c (hpre.subset (by simp)), ?_⟩
+  simpa using noLinkPrefix_sound fs q [] h pre c hpre
+
+theorem isPhysical_of_clean (fs : Fs) (q : Path) (h : Clean fs q) : fs.isPhysical q = true :=
+  noLinkPrefix_complete fs q [] (fun pre c hp => by simpa using (h pre c hp).2)
+
+theorem lexNorm_out_plain : ∀ (s acc : Path), (∀ c ∈ acc, Plain c) → ∀ c ∈ lexNorm acc s, Plain c := by
+  intro s
+  induction s with
+  | nil => intro acc h; simpa [lexNorm] using h
+  | cons d s ih =>
+    intro acc h
+    simp only [lexNorm]
+    cases hd : isDot d with
+    | true => simpa using ih acc h
+    | false =>
+      cases hdd : isDotDot d with
+      | true => simpa using ih _ (fun c hc => h c ((List.dropLast_prefix acc).subset hc))
+      | false =>
+        simp only [if_false, Bool.false_eq_true]
+        apply ih
+        intro c hc
+        rcases List.mem_append.mp hc with hc | hc
+        · exact h c hc
+        · simp at hc; subst hc; exact ⟨hd, hdd⟩
+
+/-- whatever `Path.resolve()` returns is made of proper names (no empty component, no `.`, no `..`) -/
+theorem resolvePy_plain (fs : Fs) (p n : Path) (h : resolvePy fs p = .ok n) : ∀ c ∈ n, Plain c := by
+  unfold resolvePy at h
+  cases hw : walk fs maxExpansions [] (p.map .comp) with
+  | ok q => rw [hw] at h; cases h; exact clean_plain (walk_clean fs _ _ _ _ (clean_nil fs) hw)
+  | outOfFuel => rw [hw] at h; cases h
+  | looped u =>
+    rw [hw] at h
+    simp only at h
+    split at h
+    · cases h
+    · cases h; exact lexNorm_out_plain u [] (by simp)
+
+/-- C16b.1' what passes the check is fully resolved: no dots, no symbolic link on it -/
+theorem resolveChecked_clean (fs : Fs) (p n : Path) (h : resolveChecked fs p = .ok n) : Clean fs n := by
+  unfold resolveChecked at h
+  cases hr : resolvePy fs p with
+  | ok n' =>
+    rw [hr] at h
+    simp only at h
+    split at h
+    · rename_i hph; cases h; exact clean_of_physical fs _ (resolvePy_plain fs p _ hr) hph
+    · cases h
+  | eloop => rw [hr] at h; cases h
+  | outOfFuel => rw [hr] at h; cases h
+
+theorem resolveChecked_of_resolve (fs : Fs) (p q : Path) (h : resolve fs p = some q) : resolveChecked fs p = .ok q := by
+  unfold resolveChecked
+  rw [resolvePy_of_resolve fs p q h]
+  simp [isPhysical_of_clean fs q (resolve_no_symlink fs p q h)]
+
+theorem stat_clean_ne_eloop (fs : Fs) (n : Path) (h : Clean fs n) : fs.stat n ≠ .eloop := by
+  unfold Fs.stat
+  rcases kwalkPlain_clean fs n [] (by simpa using h) with hd | hd
+  · rw [kwalk_of_plain_done fs _ _ _ _ hd]; simp
+  · rw [kwalk_of_plain_noent fs _ _ _ hd]; simp
+
+/-- the checked resolution does not depend on what `stat()` reports -/
+theorem resolveChecked_eq (fs : Fs) (p : Path) :
+    resolveChecked fs p =
+      match walk fs maxExpansions [] (p.map .comp) with
+      | .ok q => .ok q
+      | .outOfFuel => .outOfFuel
+      | .looped u => if fs.isPhysical (lexNorm [] u) then .ok (lexNorm [] u) else .eloop := by
+  unfold resolveChecked resolvePy
+  cases hw : walk fs maxExpansions [] (p.map .comp) with
+  | ok q => simp [isPhysical_of_clean fs q (walk_clean fs _ _ _ _ (clean_nil fs) hw)]
+  | outOfFuel => rfl
+  | looped u =>
+    simp only
+    cases hs : fs.stat (lexNorm [] u) with
+    | ok t => rfl
+    | noent => rfl
+    | eloop =>
+      simp only
+      cases hph : fs.isPhysical (lexNorm [] u) with
+      | false => rfl
+      | true =>
+        exact absurd hs (stat_clean_ne_eloop fs _
+          (clean_of_physical fs _ (lexNorm_out_plain u [] (by simp)) hph))
+
 /-! ## the decision -/
 
 /-- the decision once both resolutions have succeeded without meeting a loop -/
@@ -347,16 +480,16 @@ theorem decideLinkP_resolved (isPage : Path → Bool) (fs : Fs) (root sd : Path)
       else match fs.statNode q with
         | some (.file content) => .asset (q.drop rr.length) content
         | _ => .missing := by
-  unfold decideLinkP
+  unfold decideLinkP decideLinkWith
   rw [ht]
-  simp only [resolvePy_of_resolve fs raw q hq, resolvePy_of_resolve fs root rr hr]
+  simp only [resolveChecked_of_resolve fs raw q hq, resolvePy_of_resolve fs root rr hr]
   rfl
 
 /-- a URL that is no local link is decided without looking at the file system -/
 theorem decideLinkP_nonlocal (isPage : Path → Bool) (fs fs' : Fs) (root sd : Path) (url : Str)
     (ht : ∀ raw, localTarget root sd url ≠ .path raw) :
     decideLinkP isPage fs root sd url = decideLinkP isPage fs' root sd url := by
-  unfold decideLinkP
+  unfold decideLinkP decideLinkWith
   cases h : localTarget root sd url with
   | untouched => rfl
   | invalid => rfl
@@ -370,41 +503,76 @@ theorem isPageSource_inside (fs : Fs) (root q rr : Path) (hr : resolve fs root =
   simp only [Bool.and_eq_true] at h
   exact h.1
 
-/-- C16b.2 (proved part: no loop met) an asset is a regular file at a fully resolved path below the resolved root; the
-    path relative to the resolved root names the copy; the bytes are that file's bytes -/
-theorem asset_is_inside_root_partial (isPage : Path → Bool) (fs : Fs) (root sd : Path) (url : Str) (raw q rr rel : Path)
-    (content : List Nat)
-    (ht : localTarget root sd url = .path raw) (hq : resolve fs raw = some q) (hr : resolve fs root = some rr)
-    (h : decideLinkP isPage fs root sd url = .asset rel content) :
-    q = rr ++ rel ∧ isUnder rr (rr ++ rel) = true ∧ Clean fs (rr ++ rel) ∧
+/-- C16b.2 (full strength: every file system, root, source directory and URL; no hypothesis about loops) whenever the
+    decision is `asset rel content`, the root resolved to some `rr`, and the file read is `rr ++ rel`: a path without
+    dots and without a symbolic link on it (so is `rr`), component-wise below `rr`, a regular file whose bytes are
+    `content`; `rel` names the copy under the assets directory. On a well-formed file system `stat` of that path ends at
+    that very path: the bytes are physically inside the root. -/
+theorem asset_is_inside_root (isPage : Path → Bool) (fs : Fs) (root sd : Path) (url : Str) (rel : Path)
+    (content : List Nat) (h : decideLinkP isPage fs root sd url = .asset rel content) :
+    ∃ rr, resolvePy fs root = .ok rr ∧ Clean fs rr ∧ Clean fs (rr ++ rel) ∧ isUnder rr (rr ++ rel) = true ∧
       fs.nodeAt (rr ++ rel) = some (.file content) ∧ fs.readFile (rr ++ rel) = some content ∧
       (WF fs → fs.stat (rr ++ rel) = .ok (rr ++ rel)) := by
-  rw [decideLinkP_resolved isPage fs root sd url raw q rr ht hq hr] at h
-  split at h
-  · cases h
-  · split at h
-    · cases h
-    · rename_i hu
-      have hu' : isUnder rr q = true := by simpa using hu
+  unfold decideLinkP decideLinkWith at h
+  cases ht : localTarget root sd url with
+  | untouched => rw [ht] at h; cases h
+  | invalid => rw [ht] at h; cases h
+  | path raw =>
+    rw [ht] at h
+    simp only at h
+    cases hq : resolveChecked fs raw with
+    | eloop => rw [hq] at h; cases h
+    | outOfFuel => rw [hq] at h; cases h
+    | ok q =>
+      rw [hq] at h
+      simp only at h
+      have hclean := resolveChecked_clean fs raw q hq
       split at h
-      · rename_i c hs
-        cases h
-        have hsplit := isUnder_split hu'
-        have hclean := resolve_no_symlink fs raw q hq
-        rw [hsplit]
-        have hnode := statNode_clean_sub fs q hclean _ hs
-        refine ⟨rfl, hu', hclean, hnode, ?_, fun hw => stat_clean fs hw q hclean (by rw [hnode]; simp)⟩
-        unfold Fs.readFile
-        rw [hs]
       · cases h
+      · cases hr : resolvePy fs root with
+        | eloop => rw [hr] at h; cases h
+        | outOfFuel => rw [hr] at h; cases h
+        | ok rr =>
+          rw [hr] at h
+          simp only at h
+          split at h
+          · cases h
+          · rename_i hu
+            have hu' : isUnder rr q = true := by simpa using hu
+            split at h
+            · rename_i c hs
+              cases h
+              have hsplit := isUnder_split hu'
+              have hnode := statNode_clean_sub fs q hclean _ hs
+              refine ⟨rr, rfl, clean_prefix hclean ((isUnder_iff _ _).mp hu'), ?_⟩
+              rw [hsplit]
+              refine ⟨hclean, hu', hnode, ?_, fun hw => stat_clean fs hw q hclean (by rw [hnode]; simp)⟩
+              unfold Fs.readFile
+              rw [hs]
+            · cases h
 
-/-- the statement without the "no loop met" hypothesis, in its weakest form: the bytes served are those of a file whose
+/-- the same for the site's page rule and for the embedding of the standalone page -/
+theorem asset_is_inside_root_site (fs : Fs) (root sd : Path) (url : Str) (rel : Path) (content : List Nat)
+    (h : decideLink fs root sd url = .asset rel content ∨ decideEmbed fs root sd url = .asset rel content) :
+    ∃ rr, resolvePy fs root = .ok rr ∧ Clean fs rr ∧ Clean fs (rr ++ rel) ∧ isUnder rr (rr ++ rel) = true ∧
+      fs.nodeAt (rr ++ rel) = some (.file content) ∧ fs.readFile (rr ++ rel) = some content ∧
+      (WF fs → fs.stat (rr ++ rel) = .ok (rr ++ rel)) := by
+  rcases h with h | h
+  · exact asset_is_inside_root _ fs root sd url rel content h
+  · exact asset_is_inside_root _ fs root sd url rel content h
+
+/-- containment in its weakest form, as a property of a decision procedure: the bytes served are those of a file whose
     physical place (where the kernel's lookup of the served path ends) is below the resolved root -/
-def asset_is_inside_root_Full : Prop :=
+def AssetsInsideRoot (decide : (Path → Bool) → Fs → Path → Path → Str → Outcome) : Prop :=
   ∀ (isPage : Path → Bool) (fs : Fs) (root sd : Path) (url : Str) (rel : Path) (content : List Nat),
-    WF fs → decideLinkP isPage fs root sd url = .asset rel content →
+    WF fs → decide isPage fs root sd url = .asset rel content →
     ∃ rr t, resolvePy fs root = .ok rr ∧ fs.stat (rr ++ rel) = .ok t ∧ isUnder rr t = true ∧
       fs.nodeAt t = some (.file content)
+
+theorem assetsInsideRoot_checked : AssetsInsideRoot decideLinkP := by
+  intro isPage fs root sd url rel content hw h
+  obtain ⟨rr, h1, _, _, h4, h5, _, h7⟩ := asset_is_inside_root isPage fs root sd url rel content h
+  exact ⟨rr, rr ++ rel, h1, h7 hw, h4, h5⟩
 
 /-- C16b.3 a link whose resolved target is not below the resolved root -- by whatever means -- is refused, unless the
     resolved target is a key of the page lookup -/
@@ -678,53 +846,273 @@ theorem resolve_agree (fs1 fs2 : Fs) (p : Path) (h : ∀ x ∈ resolveLookups fs
   unfold resolve
   rw [walk_agree fs1 fs2 _ _ _ h]
 
-/-- C16b.6 (proved part: no loop met) non-interference: two (well-formed) file systems that agree on everything below
-    the resolved root, and on the symbolic links at the places the two resolutions look at, give the same decision --
-    whatever else differs. No byte, and no file's existence, outside the root influences any outcome. -/
-theorem no_outside_bytes_partial (isPage : Path → Bool) (fs1 fs2 : Fs) (hw1 : WF fs1) (hw2 : WF fs2) (root sd : Path)
-    (url : Str) (raw q rr : Path)
-    (ht : localTarget root sd url = .path raw) (hq : resolve fs1 raw = some q) (hr : resolve fs1 root = some rr)
-    (hlinks : ∀ p ∈ resolveLookups fs1 raw ++ resolveLookups fs1 root, fs1.linkAt p = fs2.linkAt p)
-    (hin : ∀ p, isUnder rr p = true → fs1.nodeAt p = fs2.nodeAt p) :
+theorem noLinkPrefix_agree (fs1 fs2 : Fs) : ∀ (s acc : Path),
+    (∀ p ∈ prefixesOf acc s, fs1.linkAt p = fs2.linkAt p) → noLinkPrefix fs2 acc s = noLinkPrefix fs1 acc s := by
+  intro s
+  induction s with
+  | nil => intro acc _; rfl
+  | cons c s ih =>
+    intro acc h
+    simp only [noLinkPrefix, prefixesOf] at h ⊢
+    rw [← h _ (List.mem_cons_self ..), ih _ (fun p hp => h p (List.mem_cons_of_mem _ hp))]
+
+/-- the places the kernel's lookup looks at -/
+def klookupsPlain (fs : Fs) : Path → List Str → List Path
+  | _, [] => []
+  | acc, c :: rest =>
+    acc ::
+      match fs.nodeAt acc with
+      | some .dir =>
+        if isDot c then klookupsPlain fs acc rest
+        else if isDotDot c then klookupsPlain fs acc.dropLast rest
+        else
+          (acc ++ [c]) ::
+            match fs.nodeAt (acc ++ [c]) with
+            | none => []
+            | some (.symlink _ _) => []
+            | some _ => klookupsPlain fs (acc ++ [c]) rest
+      | _ => []
+def klookups (fs : Fs) : Nat → Path → List Str → List Path
+  | fuel, acc, todo =>
+    klookupsPlain fs acc todo ++
+      match kwalkPlain fs acc todo with
+      | .link acc' todo' =>
+        match fuel with
+        | 0 => []
+        | fuel + 1 => klookups fs fuel acc' todo'
+      | _ => []
+
+theorem kwalkPlain_agree (fs1 fs2 : Fs) : ∀ (todo : List Str) (acc : Path),
+    (∀ p ∈ klookupsPlain fs1 acc todo, fs1.nodeAt p = fs2.nodeAt p) → kwalkPlain fs2 acc todo = kwalkPlain fs1 acc todo := by
+  intro todo
+  induction todo with
+  | nil => intro acc _; simp [kwalkPlain]
+  | cons c rest ih =>
+    intro acc h
+    simp only [klookupsPlain] at h
+    have h0 := h acc (List.mem_cons_self ..)
+    have h' : ∀ p ∈ (match fs1.nodeAt acc with
+      | some .dir =>
+        if isDot c then klookupsPlain fs1 acc rest
+        else if isDotDot c then klookupsPlain fs1 acc.dropLast rest
+        else
+          (acc ++ [c]) ::
+            match fs1.nodeAt (acc ++ [c]) with
+            | none => []
+            | some (.symlink _ _) => []
+            | some _ => klookupsPlain fs1 (acc ++ [c]) rest
+      | _ => []), fs1.nodeAt p = fs2.nodeAt p := fun p hp => h p (List.mem_cons_of_mem _ hp)
+    unfold kwalkPlain
+    rw [← h0]
+    cases hn : fs1.nodeAt acc with
+    | none => rfl
+    | some n =>
+      cases n with
+      | file _ => rfl
+      | symlink _ _ => rfl
+      | dir =>
+        simp only [hn] at h' ⊢
+        cases hd : isDot c with
+        | true => simp only [hd, if_true] at h' ⊢; exact ih acc h'
+        | false =>
+          cases hdd : isDotDot c with
+          | true => simp only [hd, hdd, if_true, if_false, Bool.false_eq_true] at h' ⊢; exact ih _ h'
+          | false =>
+            simp only [hd, hdd, if_false, Bool.false_eq_true] at h' ⊢
+            have h1 := h' (acc ++ [c]) (List.mem_cons_self ..)
+            rw [← h1]
+            cases hc : fs1.nodeAt (acc ++ [c]) with
+            | none => rfl
+            | some n' =>
+              cases n' with
+              | symlink t a => rfl
+              | dir => simp only [hc] at h' ⊢; exact ih _ (fun p hp => h' p (List.mem_cons_of_mem _ hp))
+              | file _ => simp only [hc] at h' ⊢; exact ih _ (fun p hp => h' p (List.mem_cons_of_mem _ hp))
+
+theorem kwalk_agree (fs1 fs2 : Fs) : ∀ (fuel : Nat) (acc : Path) (todo : List Str),
+    (∀ p ∈ klookups fs1 fuel acc todo, fs1.nodeAt p = fs2.nodeAt p) → kwalk fs2 fuel acc todo = kwalk fs1 fuel acc todo := by
+  intro fuel
+  induction fuel with
+  | zero =>
+    intro acc todo h
+    unfold klookups at h
+    have hp := kwalkPlain_agree fs1 fs2 todo acc (fun p hp => h p (List.mem_append_left _ hp))
+    unfold kwalk
+    rw [hp]
+  | succ n ih =>
+    intro acc todo h
+    unfold klookups at h
+    have hp := kwalkPlain_agree fs1 fs2 todo acc (fun p hp => h p (List.mem_append_left _ hp))
+    unfold kwalk
+    rw [hp]
+    cases hs : kwalkPlain fs1 acc todo with
+    | done q => rfl
+    | noent => rfl
+    | link a t =>
+      simp only
+      rw [hs] at h
+      exact ih a t (fun p hp => h p (List.mem_append_right _ hp))
+
+/-- where `Path.resolve()` falls back to after a loop: the lexically normalised, unresolved path -/
+def fallbackOf (fs : Fs) (p : Path) : Option Path :=
+  match walk fs maxExpansions [] (p.map .comp) with
+  | .looped u => some (lexNorm [] u)
+  | _ => none
+
+/-- the places where the decision on `raw` (with root `root`) asks whether there is a symbolic link: the `lstat`s of the
+    two resolutions, and the `is_symlink()` tests on the components of a fallback path -/
+def linksLookedAt (fs : Fs) (raw root : Path) : List Path :=
+  resolveLookups fs raw ++ (match fallbackOf fs raw with | some n => prefixesOf [] n | none => []) ++ resolveLookups fs root
+
+/-- the places the `stat()` inside `root.resolve()` looks at -- none unless the root path itself runs into a loop -/
+def nodesLookedAt (fs : Fs) (root : Path) : List Path :=
+  match fallbackOf fs root with
+  | some n => klookups fs maxSymlinks [] n
+  | none => []
+
+theorem resolveChecked_agree (fs1 fs2 : Fs) (p : Path)
+    (h : ∀ x ∈ resolveLookups fs1 p ++ (match fallbackOf fs1 p with | some n => prefixesOf [] n | none => []),
+      fs1.linkAt x = fs2.linkAt x) :
+    resolveChecked fs2 p = resolveChecked fs1 p := by
+  rw [resolveChecked_eq, resolveChecked_eq,
+    walk_agree fs1 fs2 _ _ _ (fun x hx => h x (List.mem_append_left _ hx))]
+  cases hw : walk fs1 maxExpansions [] (p.map .comp) with
+  | ok q => rfl
+  | outOfFuel => rfl
+  | looped u =>
+    simp only
+    have : fs2.isPhysical (lexNorm [] u) = fs1.isPhysical (lexNorm [] u) := by
+      unfold Fs.isPhysical
+      apply noLinkPrefix_agree
+      intro x hx
+      apply h x
+      apply List.mem_append_right
+      unfold fallbackOf
+      rw [hw]
+      exact hx
+    rw [this]
+
+theorem resolvePy_agree (fs1 fs2 : Fs) (p : Path)
+    (hl : ∀ x ∈ resolveLookups fs1 p, fs1.linkAt x = fs2.linkAt x)
+    (hn : ∀ x ∈ nodesLookedAt fs1 p, fs1.nodeAt x = fs2.nodeAt x) :
+    resolvePy fs2 p = resolvePy fs1 p := by
+  unfold resolvePy
+  rw [walk_agree fs1 fs2 _ _ _ hl]
+  cases hw : walk fs1 maxExpansions [] (p.map .comp) with
+  | ok q => rfl
+  | outOfFuel => rfl
+  | looped u =>
+    simp only
+    have : fs2.stat (lexNorm [] u) = fs1.stat (lexNorm [] u) := by
+      unfold Fs.stat
+      apply kwalk_agree
+      intro x hx
+      apply hn x
+      unfold nodesLookedAt fallbackOf
+      rw [hw]
+      exact hx
+    rw [this]
+
+/-- C16b.6 (full strength; no hypothesis about loops) non-interference: two (well-formed) file systems that agree
+    * on everything below the resolved root,
+    * on the symbolic links at the places the decision looks for one (`linksLookedAt`), and
+    * when the root path itself runs into a loop, on the nodes the `stat()` of `root.resolve()` looks at
+      (`nodesLookedAt`: empty otherwise)
+    give the same decision for every URL -- whatever else differs. No byte, and no file's existence, outside the root
+    influences any outcome. -/
+theorem no_outside_bytes (isPage : Path → Bool) (fs1 fs2 : Fs) (hw1 : WF fs1) (hw2 : WF fs2) (root sd : Path) (url : Str)
+    (hlinks : ∀ raw, localTarget root sd url = .path raw → ∀ p ∈ linksLookedAt fs1 raw root, fs1.linkAt p = fs2.linkAt p)
+    (hnodes : ∀ p ∈ nodesLookedAt fs1 root, fs1.nodeAt p = fs2.nodeAt p)
+    (hin : ∀ rr, resolvePy fs1 root = .ok rr → ∀ p, isUnder rr p = true → fs1.nodeAt p = fs2.nodeAt p) :
     decideLinkP isPage fs2 root sd url = decideLinkP isPage fs1 root sd url := by
-  have hq2 : resolve fs2 raw = some q := by
-    rw [resolve_agree fs1 fs2 raw (fun p hp => hlinks p (List.mem_append_left _ hp)), hq]
-  have hr2 : resolve fs2 root = some rr := by
-    rw [resolve_agree fs1 fs2 root (fun p hp => hlinks p (List.mem_append_right _ hp)), hr]
-  rw [decideLinkP_resolved isPage fs1 root sd url raw q rr ht hq hr,
-    decideLinkP_resolved isPage fs2 root sd url raw q rr ht hq2 hr2]
-  cases hu : isUnder rr q with
-  | false => simp
-  | true =>
-    rw [statNode_clean fs1 hw1 q (resolve_no_symlink fs1 raw q hq), statNode_clean fs2 hw2 q (resolve_no_symlink fs2 raw q hq2),
-      hin q hu]
+  cases ht : localTarget root sd url with
+  | untouched => exact decideLinkP_nonlocal isPage fs2 fs1 root sd url (by rw [ht]; intro raw h; cases h)
+  | invalid => exact decideLinkP_nonlocal isPage fs2 fs1 root sd url (by rw [ht]; intro raw h; cases h)
+  | path raw =>
+    have hl := hlinks raw ht
+    unfold linksLookedAt at hl
+    have h1 : resolveChecked fs2 raw = resolveChecked fs1 raw :=
+      resolveChecked_agree fs1 fs2 raw (fun x hx => hl x (List.mem_append_left _ hx))
+    have h2 : resolvePy fs2 root = resolvePy fs1 root :=
+      resolvePy_agree fs1 fs2 root (fun x hx => hl x (List.mem_append_right _ hx)) hnodes
+    unfold decideLinkP decideLinkWith
+    rw [ht]
+    simp only [h1, h2]
+    cases hq : resolveChecked fs1 raw with
+    | eloop => rfl
+    | outOfFuel => rfl
+    | ok q =>
+      simp only
+      cases isPage q with
+      | true => rfl
+      | false =>
+        simp only [if_false, Bool.false_eq_true]
+        cases hr : resolvePy fs1 root with
+        | eloop => rfl
+        | outOfFuel => rfl
+        | ok rr =>
+          simp only
+          cases hu : isUnder rr q with
+          | false => rfl
+          | true =>
+            have hc1 := resolveChecked_clean fs1 raw q hq
+            have hc2 := resolveChecked_clean fs2 raw q (by rw [h1, hq])
+            rw [statNode_clean fs1 hw1 q hc1, statNode_clean fs2 hw2 q hc2, hin rr hr q hu]
 
 /-- the same for the site's own page rule, which looks below the root only -/
-theorem no_outside_bytes_site_partial (fs1 fs2 : Fs) (hw1 : WF fs1) (hw2 : WF fs2) (root sd : Path)
-    (url : Str) (raw q rr : Path)
-    (ht : localTarget root sd url = .path raw) (hq : resolve fs1 raw = some q) (hr : resolve fs1 root = some rr)
-    (hlinks : ∀ p ∈ resolveLookups fs1 raw ++ resolveLookups fs1 root, fs1.linkAt p = fs2.linkAt p)
-    (hin : ∀ p, isUnder rr p = true → fs1.nodeAt p = fs2.nodeAt p) :
-    decideLink fs2 root sd url = decideLink fs1 root sd url := by
-  have hr2 : resolve fs2 root = some rr := by
-    rw [resolve_agree fs1 fs2 root (fun p hp => hlinks p (List.mem_append_right _ hp)), hr]
-  have hpage : isPageSource fs2 root = isPageSource fs1 root := by
-    funext x
-    unfold isPageSource
-    rw [hr, hr2]
-    cases hu : isUnder rr x with
-    | false => simp [hu]
-    | true => simp only [hin x hu]
+theorem no_outside_bytes_site (fs1 fs2 : Fs) (hw1 : WF fs1) (hw2 : WF fs2) (root sd : Path) (url : Str)
+    (hlinks : ∀ raw, localTarget root sd url = .path raw → ∀ p ∈ linksLookedAt fs1 raw root, fs1.linkAt p = fs2.linkAt p)
+    (hnodes : ∀ p ∈ nodesLookedAt fs1 root, fs1.nodeAt p = fs2.nodeAt p)
+    (hin : ∀ rr, resolvePy fs1 root = .ok rr → ∀ p, isUnder rr p = true → fs1.nodeAt p = fs2.nodeAt p) :
+    decideLink fs2 root sd url = decideLink fs1 root sd url ∧ decideEmbed fs2 root sd url = decideEmbed fs1 root sd url := by
+  refine ⟨?_, no_outside_bytes _ fs1 fs2 hw1 hw2 root sd url hlinks hnodes hin⟩
   unfold decideLink
-  rw [hpage]
-  exact no_outside_bytes_partial _ fs1 fs2 hw1 hw2 root sd url raw q rr ht hq hr hlinks hin
+  cases ht : localTarget root sd url with
+  | untouched =>
+    unfold decideLinkP decideLinkWith; rw [ht]
+  | invalid =>
+    unfold decideLinkP decideLinkWith; rw [ht]
+  | path raw =>
+    have hl := hlinks raw ht
+    unfold linksLookedAt at hl
+    have hres : resolve fs2 root = resolve fs1 root :=
+      resolve_agree fs1 fs2 root (fun x hx => hl x (List.mem_append_right _ hx))
+    have hpage : isPageSource fs2 root = isPageSource fs1 root := by
+      funext x
+      unfold isPageSource
+      rw [hres]
+      cases hr : resolve fs1 root with
+      | none => rfl
+      | some rr =>
+        simp only
+        cases hu : isUnder rr x with
+        | false => simp
+        | true => simp only [hin rr (resolvePy_of_resolve fs1 root rr hr) x hu]
+    rw [hpage]
+    exact no_outside_bytes _ fs1 fs2 hw1 hw2 root sd url hlinks hnodes hin
 
-/-- the statement without the "no loop met" hypothesis -/
-def no_outside_bytes_Full : Prop :=
-  ∀ (isPage : Path → Bool) (fs1 fs2 : Fs) (root sd : Path) (url : Str) (raw rr : Path), WF fs1 → WF fs2 →
-    localTarget root sd url = .path raw → resolvePy fs1 root = .ok rr →
+/-- non-interference in a simple form, as a property of a decision procedure: the root is a loop-free path, the two file
+    systems have the same symbolic links everywhere and the same nodes below the resolved root -/
+def NoOutsideBytes (decide : (Path → Bool) → Fs → Path → Path → Str → Outcome) : Prop :=
+  ∀ (isPage : Path → Bool) (fs1 fs2 : Fs) (root sd : Path) (url : Str) (rr : Path), WF fs1 → WF fs2 →
+    resolve fs1 root = some rr →
     (∀ p, fs1.linkAt p = fs2.linkAt p) → (∀ p, isUnder rr p = true → fs1.nodeAt p = fs2.nodeAt p) →
-    decideLinkP isPage fs2 root sd url = decideLinkP isPage fs1 root sd url
+    decide isPage fs2 root sd url = decide isPage fs1 root sd url
+
+theorem noOutsideBytes_checked : NoOutsideBytes decideLinkP := by
+  intro isPage fs1 fs2 root sd url rr hw1 hw2 hr hl hin
+  apply no_outside_bytes isPage fs1 fs2 hw1 hw2 root sd url (fun _ _ p _ => hl p)
+  · intro p hp
+    unfold nodesLookedAt fallbackOf at hp
+    unfold resolve at hr
+    cases hw : walk fs1 maxExpansions [] (root.map .comp) with
+    | ok q => rw [hw] at hp; cases hp
+    | outOfFuel => rw [hw] at hr; cases hr
+    | looped u => rw [hw] at hr; cases hr
+  · intro rr' hr' p hu
+    rw [resolvePy_of_resolve fs1 root rr hr] at hr'
+    cases hr'
+    exact hin p hu
 
 /-! ## the executable well-formedness check implies `WF` -/
 
@@ -788,6 +1176,9 @@ def exFs (secret : List Nat) : Fs := ⟨[
   (["site".toList, "a".toList, "loop".toList], .symlink ["loop".toList] false),
   (["site".toList, "a".toList, "l1".toList], .symlink ["l2".toList] false),
   (["site".toList, "a".toList, "l2".toList], .symlink ["l1".toList] false),
+  (["site".toList, "a".toList, "k".toList],
+    .symlink ["nope".toList, "..".toList, "l1".toList, "..".toList, "link-outside.txt".toList] false),
+  (["site".toList, "a".toList, "kk".toList], .symlink ["loop".toList, "..".toList, "k".toList] false),
   (["alias".toList], .symlink ["site".toList] false)]⟩
 
 def canary : List Nat := [67, 65, 78, 65, 82, 89]
@@ -832,26 +1223,58 @@ example : ex "loop/x" = .loop := by decide +kernel
 example : ex "l1" = .loop := by decide +kernel
 example : resolve (exFs canary) (exDir ++ ["l1".toList]) = none := by decide +kernel
 -- a loop followed by `..`: CPython's `realpath` gives up, `abspath` cancels `loop/..` lexically, and the path that
--- comes back is NOT resolved: the link out of the root is served (observed with CPython 3.12.1 and the real functions)
+-- comes back is NOT resolved ...
 example : resolvePy (exFs canary) (exDir ++ ["loop".toList, "..".toList, "link-outside.txt".toList]) =
     .ok (exDir ++ ["link-outside.txt".toList]) := by decide +kernel
-example : ex "loop/../link-outside.txt" = .asset ["a".toList, "link-outside.txt".toList] canary := by decide +kernel
-example : ex "loop/../dir-outside/secret.txt" = .asset ["a".toList, "dir-outside".toList, "secret.txt".toList] canary := by
-  decide +kernel
-example : decideEmbed (exFs canary) exRoot exDir "l1/../link-outside.txt".toList =
-    .asset ["a".toList, "link-outside.txt".toList] canary := by decide +kernel
+-- ... so the check refuses it (`RuntimeError("Symlink loop from ...")`), however the link out is reached
+example : ex "loop/../link-outside.txt" = .loop := by decide +kernel
+example : ex "loop/../dir-outside/secret.txt" = .loop := by decide +kernel
+example : decideEmbed (exFs canary) exRoot exDir "l1/../link-outside.txt".toList = .loop := by decide +kernel
+example : ex "k" = .loop := by decide +kernel
+example : ex "loop/../k" = .loop := by decide +kernel
+example : ex "kk" = .loop := by decide +kernel
+-- a fallback path that is physical is accepted: `/site/a/loop/../../top.txt` is `/site/top.txt`
+example : ex "dir-inside/a/loop/../../top.txt" = .asset ["top.txt".toList] [116, 111, 112] := by decide +kernel
+example : ex "loop/../img%201.png" = .asset ["a".toList, "img 1.png".toList] [137, 80, 78, 71] := by decide +kernel
 
-/-! ## the unconditional statements are false (for the model, as for the real code) -/
+/-! ## why the check is needed: the decisions without it serve a file from outside the root
+    (observed with CPython 3.12.1 and the real functions at the commits named) -/
+
+/-- the code up to commit 5662881 (a single `resolve()`): `loop/../link-outside.txt` is served from
+    `/site/a/link-outside.txt`, a symbolic link to `/outside/secret.txt`, with the outside bytes -/
+theorem single_resolve_leaks :
+    decideLinkP1 (fun _ => false) (exFs canary) exRoot exDir "loop/../link-outside.txt".toList =
+      .asset ["a".toList, "link-outside.txt".toList] canary ∧
+    (exFs canary).stat (exRoot ++ ["a".toList, "link-outside.txt".toList]) = .ok ["outside".toList, "secret.txt".toList] := by
+  decide +kernel
+
+/-- commit 5662881 (`resolve().resolve()`) refuses that one ... -/
+theorem double_resolve_refuses_the_first :
+    decideLinkP2 (fun _ => false) (exFs canary) exRoot exDir "loop/../link-outside.txt".toList = .external := by
+  decide +kernel
+
+/-- ... but not a link whose *target* contains `..` behind a loop: `k -> nope/../l1/../link-outside.txt`. The first
+    `resolve()` of `loop/../k` gives `/site/a/k` (`stat` says `ENOENT`, not `ELOOP`), the second one falls back again,
+    to `/site/a/link-outside.txt`. Even the plain URL `kk` (`kk -> loop/../k`) is served with the outside bytes. -/
+theorem double_resolve_leaks :
+    decideLinkP2 (fun _ => false) (exFs canary) exRoot exDir "loop/../k".toList =
+      .asset ["a".toList, "link-outside.txt".toList] canary ∧
+    decideLinkP2 (fun _ => false) (exFs canary) exRoot exDir "kk".toList =
+      .asset ["a".toList, "link-outside.txt".toList] canary ∧
+    resolvePy (exFs canary) (exDir ++ ["loop".toList, "..".toList, "k".toList]) = .ok (exDir ++ ["k".toList]) ∧
+    resolvePy2 (exFs canary) (exDir ++ ["loop".toList, "..".toList, "k".toList]) =
+      .ok (exDir ++ ["link-outside.txt".toList]) := by
+  decide +kernel
 
 theorem exFs_wf_canary : WF (exFs canary) := wf_of_check _ (by decide +kernel)
 theorem exFs_wf_other : WF (exFs [0]) := wf_of_check _ (by decide +kernel)
 
-/-- C16b.2 at full strength is FALSE: with a looping link in the tree, `loop/../link-outside.txt` is served from
-    `/site/a/link-outside.txt`, a symbolic link whose bytes are those of `/outside/secret.txt` -/
-theorem asset_is_inside_root_Full_false : ¬ asset_is_inside_root_Full := by
-  intro h
-  obtain ⟨rr, t, h1, h2, h3, _⟩ := h (fun _ => false) (exFs canary) exRoot exDir "loop/../link-outside.txt".toList
-    ["a".toList, "link-outside.txt".toList] canary exFs_wf_canary (by decide +kernel)
+theorem not_contained_of_leak (decide : (Path → Bool) → Fs → Path → Path → Str → Outcome) (url : Str)
+    (h : decide (fun _ => false) (exFs canary) exRoot exDir url = .asset ["a".toList, "link-outside.txt".toList] canary) :
+    ¬ AssetsInsideRoot decide := by
+  intro hc
+  obtain ⟨rr, t, h1, h2, h3, _⟩ := hc (fun _ => false) (exFs canary) exRoot exDir url
+    ["a".toList, "link-outside.txt".toList] canary exFs_wf_canary h
   have e : resolvePy (exFs canary) exRoot = .ok exRoot := by decide +kernel
   rw [e] at h1
   cases h1
@@ -862,35 +1285,46 @@ theorem asset_is_inside_root_Full_false : ¬ asset_is_inside_root_Full := by
   revert h3
   decide +kernel
 
-/-- C16b.6 at full strength is FALSE: two file systems that differ only in the bytes of `/outside/secret.txt` -- same
-    links everywhere, same everything below `/site` -- give different pages -/
-theorem no_outside_bytes_Full_false : ¬ no_outside_bytes_Full := by
-  intro h
-  have hnode : ∀ p, p ≠ ["outside".toList, "secret.txt".toList] → (exFs canary).nodeAt p = (exFs [0]).nodeAt p := by
-    intro p hp
-    unfold Fs.nodeAt
-    cases p with
-    | nil => rfl
-    | cons a p =>
-      simp only [exFs, List.lookup]
-      have : (a :: p == ["outside".toList, "secret.txt".toList]) = false := by simpa using hp
-      rw [this]
-  have := h (fun _ => false) (exFs canary) (exFs [0]) exRoot exDir "loop/../link-outside.txt".toList
-    (exDir ++ ["loop".toList, "..".toList, "link-outside.txt".toList]) exRoot exFs_wf_canary exFs_wf_other
-    (by decide +kernel) (by decide +kernel)
-    (by
-      intro p
-      by_cases hp : p = ["outside".toList, "secret.txt".toList]
-      · subst hp; decide +kernel
-      · unfold Fs.linkAt; rw [hnode p hp])
-    (by
-      intro p hu
-      apply hnode
-      intro hp
-      subst hp
-      revert hu
-      decide +kernel)
-  revert this
-  decide +kernel
+/-- containment is FALSE for the single `resolve()` ... -/
+theorem single_resolve_not_contained : ¬ AssetsInsideRoot decideLinkP1 :=
+  not_contained_of_leak _ _ single_resolve_leaks.1
+/-- ... and for `resolve().resolve()` -/
+theorem double_resolve_not_contained : ¬ AssetsInsideRoot decideLinkP2 :=
+  not_contained_of_leak _ _ double_resolve_leaks.1
+
+theorem exFs_nodeAt_other (p : Path) (hp : p ≠ ["outside".toList, "secret.txt".toList]) :
+    (exFs canary).nodeAt p = (exFs [0]).nodeAt p := by
+  unfold Fs.nodeAt
+  cases p with
+  | nil => rfl
+  | cons a p =>
+    simp only [exFs, List.lookup]
+    have : (a :: p == ["outside".toList, "secret.txt".toList]) = false := by simpa using hp
+    rw [this]
+
+theorem interference_of_leak (decide : (Path → Bool) → Fs → Path → Path → Str → Outcome) (url : Str)
+    (h : decide (fun _ => false) (exFs [0]) exRoot exDir url ≠ decide (fun _ => false) (exFs canary) exRoot exDir url) :
+    ¬ NoOutsideBytes decide := by
+  intro hc
+  refine h (hc (fun _ => false) (exFs canary) (exFs [0]) exRoot exDir url exRoot exFs_wf_canary exFs_wf_other
+    (by decide +kernel) ?_ ?_)
+  · intro p
+    by_cases hp : p = ["outside".toList, "secret.txt".toList]
+    · subst hp; decide +kernel
+    · unfold Fs.linkAt; rw [exFs_nodeAt_other p hp]
+  · intro p hu
+    apply exFs_nodeAt_other
+    intro hp
+    subst hp
+    revert hu
+    decide +kernel
+
+/-- non-interference is FALSE for the single `resolve()`: two file systems that differ only in the bytes of
+    `/outside/secret.txt` give different pages ... -/
+theorem single_resolve_interferes : ¬ NoOutsideBytes decideLinkP1 :=
+  interference_of_leak _ "loop/../link-outside.txt".toList (by decide +kernel)
+/-- ... and for `resolve().resolve()` -/
+theorem double_resolve_interferes : ¬ NoOutsideBytes decideLinkP2 :=
+  interference_of_leak _ "loop/../k".toList (by decide +kernel)
 
 end RG.C16
